@@ -633,4 +633,22 @@ theorem run_frame (cfg : Cfg α) (st st' : St α) (ops : List (Op α)) (evs : Li
 
 end store
 
+/-- the number of `k < K` with `(a + k + 1) % p = 0` is the number of multiples of `p` in `(a, a + K]` -/
+theorem count_multiples (a p K : ℕ) :
+    ((List.range K).map (fun k => (a + k + 1) % p == 0)).count true = (a + K) / p - a / p := by
+  induction K with
+  | zero => simp
+  | succ K ih =>
+    rw [List.range_succ, List.map_append, List.count_append, ih]
+    have hmono : a / p ≤ (a + K) / p := Nat.div_le_div_right (by omega)
+    have hs : (a + (K + 1)) / p = (a + K) / p + (if p ∣ a + K + 1 then 1 else 0) := by
+      rw [← Nat.add_assoc]; exact Nat.succ_div
+    rw [hs]
+    by_cases hd : p ∣ a + K + 1
+    · have hm : (a + K + 1) % p = 0 := Nat.mod_eq_zero_of_dvd hd
+      simp [hd, hm]
+      omega
+    · have hm : (a + K + 1) % p ≠ 0 := fun h => hd (Nat.dvd_of_mod_eq_zero h)
+      simp [hd, hm]
+
 end SB3Verif.Lemmas.Cadence
